@@ -51,7 +51,7 @@ def attach(rec):
 COLLISION_POOLS = [["a", "b", "ab", "ba"], ["x", "yx", "xy", "xyx"], ["d1", "d", "1d", "d11"], ["run", "run_", "_run", "run_run"]]
 
 
-def make_case(axes, tol, method, weights=None, seed=0, nt=None, idxdep=False, labels=None):
+def make_case(axes, tol, method, weights=None, seed=0, nt=None, idxdep=False, labels=None, varied_clps=False):
     datasets = []
     id0 = 0
     rng = np.random.default_rng(seed)
@@ -63,9 +63,20 @@ def make_case(axes, tol, method, weights=None, seed=0, nt=None, idxdep=False, la
                          "scale": None, "mc_scale": None})
         id0 += n * len(g)
     # idxdep: the model matrix really depends on the global index (each stacked column must meet ITS OWN matrix)
-    return {"datasets": datasets, "megacomplexes": {"m1": {"labels": ["a", "b"], "rates": ["k.1", "k.2"], "disp": "dsp.1" if idxdep else None}},
+    disp = "dsp.1" if idxdep else None
+    mcs = {"m1": {"labels": ["a", "b"], "rates": ["k.1", "k.2"], "disp": disp}}
+    pars = {"k.1": {"value": 1.3}, "k.2": {"value": 0.2}}
+    if varied_clps:
+        # datasets sharing an aligned point need not have the same clps, nor list the shared ones first: a label new to the
+        # point may stand before a shared one ([c, b] after [a, b]; [d, a, b])
+        mcs["m2"] = {"labels": ["c", "b"], "rates": ["k.3", "k.2"], "disp": disp}
+        mcs["m3"] = {"labels": ["d", "a", "b"], "rates": ["k.4", "k.1", "k.2"], "disp": disp}
+        pars.update({"k.3": {"value": 0.55}, "k.4": {"value": 2.4}})
+        for d, ds_ in enumerate(datasets):
+            ds_["megacomplex"] = [["m1"], ["m2"], ["m3"], ["m1"]][(d + seed) % 4]
+    return {"datasets": datasets, "megacomplexes": mcs,
             "global_megacomplexes": {}, "groups": {"g1": {"link_clp": True, "residual_function": "variable_projection"}},
-            "parameters": dict({"k.1": {"value": 1.3}, "k.2": {"value": 0.2}}, **({"dsp.1": {"value": 0.05, "vary": False}} if idxdep else {})),
+            "parameters": dict(pars, **({"dsp.1": {"value": 0.05, "vary": False}} if idxdep else {})),
             "link_tolerance": float(tol), "link_method": method,
             "constraints": [], "relations": [], "penalties": [], "weights": [], "features": {"link_clp": True}}
 
@@ -165,10 +176,14 @@ def check_optimize(case, rec):
     # parameters) and the statistics of create_result are undefined (C13 territory, not alignment)
     ds = case["datasets"]
     idxdep = bool(ds[0]["dseed"] % 2)
-    if any(len(d["t"]) < 8 for d in ds) or idxdep:
+    varied = bool((ds[0]["dseed"] // 2) % 2)
+    if any(len(d["t"]) < 8 for d in ds) or idxdep or varied:
         big = make_case([d["g"] for d in ds], case["link_tolerance"], case["link_method"], weights=[d["weight"] for d in ds],
-                        seed=ds[0]["dseed"] % 1000, nt=[max(len(d["t"]), 8 + i) for i, d in enumerate(ds)], idxdep=idxdep)
+                        seed=ds[0]["dseed"] % 1000, nt=[max(len(d["t"]), 8 + i) for i, d in enumerate(ds)], idxdep=idxdep,
+                        labels=[d["label"] for d in ds], varied_clps=varied)
         case = big
+        if varied:
+            rec.count("optimize_checked_varied_clp_sets")
         rec.count("optimize_checked_index_dependent" if idxdep else "optimize_checked_index_independent")
     c03.run_case(case, rec)
 
